@@ -249,7 +249,7 @@ theorem invCompl_step (cfg : Cfg) (s : State) (e : Event) (s' : State) (hO : Inv
     repeat' split at hs
     all_goals (first | (cases hs; done) | skip)
     rename_i _ P hP hg
-    have hnone : s.batches b = none := by simpa using hg.2.2.2
+    have hnone : s.batches b = none := by simpa using hg.2.2.2.1
     cases hs
     have hf := cframe_pws_upd (P' := { P with curr := some b, nbatches := P.nbatches + 1 }) hP rfl (Or.inl rfl)
     refine hI.of_frame hf.1 hf.2 ?_
@@ -586,7 +586,7 @@ theorem invJournal_step (cfg : Cfg) (s : State) (e : Event) (s' : State) (hA : I
     repeat' split at hs
     all_goals (first | (cases hs; done) | skip)
     rename_i _ P hP hg
-    have hnone : s.batches b = none := by simpa using hg.2.2.2
+    have hnone : s.batches b = none := by simpa using hg.2.2.2.1
     cases hs
     refine hI.of_frame rfl rfl ?_ ?_
     · intro x X' hx
